@@ -1,0 +1,74 @@
+/**
+ * @file verif_hook.h
+ * @brief Observation / yield points for external runtime monitors.
+ * @details Everything in this file is inert unless the translation unit is
+ * compiled with -DYAKUSHIMA_VERIF. With the guard off, the macros expand to
+ * nothing and no symbol is defined.
+ *
+ * A monitor installs one callback with yakushima::verif::set_hook(). The
+ * library calls it at the points listed in yakushima::verif::point. The
+ * callback may delay, yield, count or record; it must not call back into
+ * yakushima. The boolean result is only used by point::SLEEP (true = the
+ * caller skips the real sleep, used for virtual time).
+ */
+
+#pragma once
+
+#ifdef YAKUSHIMA_VERIF
+
+#include <atomic>
+
+namespace yakushima::verif {
+
+enum class point : int {
+    ATOMIC = 0,        // before a shared-memory access (wrappers, version/permutation word)
+    SPIN_LOCK,         // node lock found busy (retry branch)
+    SPIN_STABLE,       // stable-version wait found a dirty/locked word
+    SPIN_ROOT,         // root lock found busy
+    LOCK_ACQ,          // node lock acquired (obj = node_version64*)
+    LOCK_REL,          // node lock released
+    ROOT_ACQ,          // root lock acquired (obj = tree_instance*)
+    ROOT_REL,          // root lock released
+    RM_CLEARED,        // remove: slot cleared, permutation not yet shrunk (obj = border_node*)
+    SCAN_NEXT_LOADED,  // scan/iscan: neighbour pointer recorded (obj = border_node*)
+    SCAN_BEFORE_FINAL, // scan/iscan: before final validation of the current node
+    SET_BEGIN_EPOCH,   // before a session slot publishes its begin epoch (obj = thread_info*)
+    EPOCH_LOOP,        // top of the epoch thread loop
+    EPOCH_ADVANCE,     // epoch thread is about to increment the global epoch
+    GC_LOOP,           // top of the gc thread loop
+    SLEEP,             // sleepMs (obj = const std::size_t* ms); return true to skip sleeping
+    RETIRE_NODE,       // a node is handed to the reclamation queue (obj = node)
+    RETIRE_VALUE,      // a value is handed to the reclamation queue (obj = block)
+    RECLAIM_NODE,      // a retired node is about to be released (obj = node)
+    RECLAIM_VALUE,     // a retired value is about to be released (obj = block)
+    SLOT_ACQUIRED,     // session slot claimed (obj = thread_info*)
+    N_POINTS
+};
+
+using hook_fn = bool (*)(point, const void*);
+
+inline std::atomic<hook_fn> g_hook{nullptr}; // NOLINT
+
+inline void set_hook(hook_fn f) { g_hook.store(f, std::memory_order_release); }
+
+inline bool fire(point p, const void* obj) {
+    hook_fn f = g_hook.load(std::memory_order_acquire);
+    if (f == nullptr) { return false; }
+    return f(p, obj);
+}
+
+} // namespace yakushima::verif
+
+#define YAKUSHIMA_VERIF_POINT(kind, obj)                                       \
+    ((void) ::yakushima::verif::fire(::yakushima::verif::point::kind,          \
+                                     static_cast<const void*>(obj)))
+#define YAKUSHIMA_VERIF_POINT_B(kind, obj)                                     \
+    (::yakushima::verif::fire(::yakushima::verif::point::kind,                 \
+                              static_cast<const void*>(obj)))
+
+#else
+
+#define YAKUSHIMA_VERIF_POINT(kind, obj) ((void) 0)
+#define YAKUSHIMA_VERIF_POINT_B(kind, obj) (false)
+
+#endif
